@@ -79,69 +79,23 @@ def precedence(chk):
     saved = (fo._load_options, fo.logger, fo.pprint)
     fo.logger = NoLog()
     fo.pprint = type("P", (), {"pformat": staticmethod(lambda o: "")})
-    cli_values = {"language": "numba", "epsilon": "1e-7", "scalar_type": "float32", "sum_factorization": None, "table_rtol": "0.001",
-                  "table_atol": "0.002", "verbosity": "10", "part": "diagonal"}
+    cli_nondefault = {"language": "numba", "epsilon": "1e-7", "scalar_type": "float32", "sum_factorization": None, "table_rtol": "0.001",
+                      "table_atol": "0.002", "verbosity": "10", "part": "diagonal"}
+    # the same option given explicitly with the value that happens to be the built-in default
+    cli_default = {k: str(v[1]) for k, v in fo.FFCX_DEFAULT_OPTIONS.items()}
     npaths = 0
     try:
-        for key, (typ, default, _, _) in fo.FFCX_DEFAULT_OPTIONS.items():
-            for given in (False, True):
-                argv = []
-                if given:
-                    argv = [f"--{key}"] + ([] if isinstance(default, bool) else [cli_values[key]])
-                uv, pv = z3.Int("user_value"), z3.Int("pwd_value")
-                uh, ph = z3.Bool("user_has"), z3.Bool("pwd_has")
-                out = {}
-
-                def fn():
-                    user, pwd = {}, {}
-                    if pysym.SymBool(uh):
-                        user[key] = pysym.SymInt(uv)
-                    if pysym.SymBool(ph):
-                        pwd[key] = pysym.SymInt(pv)
-                    fo._load_options = lambda: (user, pwd)
-                    return cli_priority_options(argv)
-
-                # json values are distinct from each other and from anything the CLI/default can produce
-                assume = [uv >= 1000, pv >= 2000, uv != pv]
-                for pc, opts, run in pysym.explore(fn, assume):
-                    npaths += 1
-                    got = opts[key]
-                    cli_val = typ(cli_values[key]) if (given and not isinstance(default, bool)) else (True if given else None)
-                    s = z3.Solver()
-                    s.add(*pc)
-                    if given:
-                        ok = (not isinstance(got, (pysym.SymInt, pysym.SymFloat))) and got == cli_val
-                        bad = z3.BoolVal(not ok)
-                    else:
-                        if isinstance(got, pysym.SymInt):
-                            g = got.z
-                            want = z3.If(ph, pv, uv)
-                            bad = z3.Or(z3.Not(z3.Or(ph, uh)), g != want)
-                        else:
-                            # a concrete value: only right if neither json file has the key and it is the default
-                            bad = z3.Or(ph, uh) if got == default else z3.BoolVal(True)
-                    s.add(bad)
-                    r = str(s.check())
-                    chk.q("Q-path", r)
-                    chk.cases.append(f"precedence:{key}:cli={given}")
-                    if r == "sat":
-                        m = s.model()
-                        has_u, has_p = z3.is_true(m.eval(uh, model_completion=True)), z3.is_true(m.eval(ph, model_completion=True))
-                        rep = replay_precedence(key, given, has_u, has_p, default, quiet=True)
-                        what = (f"option {key!r}: command line {'gives' if given else 'does not give'} it, pwd json {'has' if has_p else 'lacks'} it, user json {'has' if has_u else 'lacks'} it, "
-                                f"merged value is {got!r}")
-                        if rep:
-                            src = ("#!/verif/.venv/bin/python\nimport sys\nsys.path[:0]=['/verif','/repo']\nfrom vlib import clicheck\n"
-                                   f"sys.exit(1 if clicheck.replay_precedence({key!r}, {given}, {has_u}, {has_p}, {default!r}) else 0)\n")
-                            chk.violation(f"cli:precedence:{key}:cli={given}:pwd={has_p}:user={has_u}", what, src)
-                        else:
-                            chk.inconc(f"precedence {key}: solver counterexample not reproduced by the real command line ({what})")
-                    elif r != "unsat":
-                        chk.inconc(f"precedence {key}: {r}")
+        for cli_values, vtag in ((cli_nondefault, "nondefault"), (cli_default, "default-valued")):
+            for key, (typ, default, _, _) in fo.FFCX_DEFAULT_OPTIONS.items():
+                for given in (False, True):
+                    if vtag == "default-valued" and (not given or isinstance(default, bool)):
+                        continue
+                    npaths += _precedence_one(chk, fo, key, typ, default, given, cli_values, vtag)
     finally:
         fo._load_options, fo.logger, fo.pprint = saved
     chk.extra["precedence_paths"] = npaths
-    chk.sample({"function": "ffcx.main.main -> ffcx.options.get_options", "json values": "z3 Ints (SymInt), presence of the key in each file a z3 Bool", "argv": "with / without --<option>"})
+    chk.sample({"function": "ffcx.main.main -> ffcx.options.get_options", "json values": "z3 Ints (SymInt), presence of the key in each file a z3 Bool",
+                "argv": "without --<option>, with a non-default value, with the value equal to the built-in default"})
     # vacuity twin: the reversed precedence (user over pwd) must be refuted
     chk.twins_run += 1
     uv, pv = z3.Int("user_value"), z3.Int("pwd_value")
@@ -151,7 +105,62 @@ def precedence(chk):
         chk.twins_ok += 1
 
 
-def replay_precedence(key, given, has_u, has_p, default, quiet=False):
+def _precedence_one(chk, fo, key, typ, default, given, cli_values, vtag):
+    argv = []
+    if given:
+        argv = [f"--{key}"] + ([] if isinstance(default, bool) else [cli_values[key]])
+    uv, pv = z3.Int("user_value"), z3.Int("pwd_value")
+    uh, ph = z3.Bool("user_has"), z3.Bool("pwd_has")
+
+    def fn():
+        user, pwd = {}, {}
+        if pysym.SymBool(uh):
+            user[key] = pysym.SymInt(uv)
+        if pysym.SymBool(ph):
+            pwd[key] = pysym.SymInt(pv)
+        fo._load_options = lambda: (user, pwd)
+        return cli_priority_options(argv)
+
+    # json values are distinct from each other and from anything the CLI/default can produce
+    assume = [uv >= 1000, pv >= 2000, uv != pv]
+    n = 0
+    for pc, opts, run in pysym.explore(fn, assume):
+        n += 1
+        got = opts[key]
+        cli_val = typ(cli_values[key]) if (given and not isinstance(default, bool)) else (True if given else None)
+        s = z3.Solver()
+        s.add(*pc)
+        if given:
+            ok = (not isinstance(got, (pysym.SymInt, pysym.SymFloat))) and got == cli_val
+            bad = z3.BoolVal(not ok)
+        elif isinstance(got, pysym.SymInt):
+            bad = z3.Or(z3.Not(z3.Or(ph, uh)), got.z != z3.If(ph, pv, uv))
+        else:
+            # a concrete value: only right if neither json file has the key and it is the default
+            bad = z3.Or(ph, uh) if got == default else z3.BoolVal(True)
+        s.add(bad)
+        r = str(s.check())
+        chk.q("Q-path", r)
+        chk.cases.append(f"precedence:{key}:cli={given}:{vtag}")
+        if r == "sat":
+            m = s.model()
+            has_u, has_p = z3.is_true(m.eval(uh, model_completion=True)), z3.is_true(m.eval(ph, model_completion=True))
+            cd = vtag == "default-valued"
+            rep = replay_precedence(key, given, has_u, has_p, default, quiet=True, cli_default=cd)
+            what = (f"option {key!r}: command line {'gives it (' + vtag + ' value ' + str(cli_values[key]) + ')' if given else 'does not give it'}, pwd json {'has' if has_p else 'lacks'} it, "
+                    f"user json {'has' if has_u else 'lacks'} it, merged value is {got!r}")
+            if rep:
+                src = ("#!/verif/.venv/bin/python\nimport sys\nsys.path[:0]=['/verif','/repo']\nfrom vlib import clicheck\n"
+                       f"sys.exit(1 if clicheck.replay_precedence({key!r}, {given}, {has_u}, {has_p}, {default!r}, cli_default={cd}) else 0)\n")
+                chk.violation(f"cli:precedence:{key}:cli={given}({vtag}):pwd={has_p}:user={has_u}", what, src)
+            else:
+                chk.inconc(f"precedence {key}: solver counterexample not reproduced by the real command line ({what})")
+        elif r != "unsat":
+            chk.inconc(f"precedence {key}: {r}")
+    return n
+
+
+def replay_precedence(key, given, has_u, has_p, default, quiet=False, cli_default=False):
     """Real `python -m ffcx` in a scratch cwd with json files; reads the option header of the output."""
     vals = {"language": "numba", "epsilon": 1e-5, "scalar_type": "float32", "sum_factorization": True, "table_rtol": 0.01, "table_atol": 0.02, "verbosity": 20, "part": "diagonal"}
     alt = {"language": "C", "epsilon": 1e-6, "scalar_type": "complex128", "sum_factorization": True, "table_rtol": 0.03, "table_atol": 0.04, "verbosity": 40, "part": "full"}
@@ -175,7 +184,9 @@ def replay_precedence(key, given, has_u, has_p, default, quiet=False):
         '''))
         env = dict(os.environ, XDG_CONFIG_HOME=str(d / "cfg"), PYTHONPATH=os.environ.get("VERIF_REPO", "/repo"))
         argv = []
-        cliv = {"language": "C", "epsilon": "1e-9", "scalar_type": "float64", "table_rtol": "0.5", "table_atol": "0.25", "verbosity": "30", "part": "full"}
+        cliv = {"language": "numba", "epsilon": "1e-9", "scalar_type": "complex64", "table_rtol": "0.5", "table_atol": "0.25", "verbosity": "10", "part": "diagonal"}
+        if cli_default:
+            cliv = {"language": "C", "epsilon": "1e-14", "scalar_type": "float64", "table_rtol": "1e-06", "table_atol": "1e-09", "verbosity": "30", "part": "full"}
         if given:
             argv = [f"--{key}"] + ([] if isinstance(default, bool) else [cliv[key]])
         r = subprocess.run(["/venv/bin/python", "-m", "ffcx", *argv, "poisson.py"], cwd=d, env=env, capture_output=True, text=True)
